@@ -72,9 +72,15 @@ func FindClass(name string) (c Class) {
 		if pkg = FindPackage(name[:index]); pkg == nil {
 			return nil
 		}
-		name = name[index+1:]
+		return pkg.FindClass(name[index+1:])
 	}
-	return pkg.FindClass(name)
+	if c = pkg.FindClass(name); c == nil && pkg != &UserPkg {
+		// The classes defined at start up, among them the conditions the
+		// runtime itself raises, are registered in the user package. They are
+		// found even when the current package does not use that package.
+		c = UserPkg.FindClass(name)
+	}
+	return
 }
 
 // RegisterClass a class.
